@@ -307,7 +307,7 @@ PROPS = {
                  "two full round-robin cycles through Table.Lookup from a generated offset: periodic, share within (2+N)/(10000-N) of the weight, positive weight never starved, "
                  "zero weight never picked, equal-weight routes exactly uniform; rnd picker driven through every ring index gives the same multiset. "
                  "Non-trivial = >=3 targets mixing fixed and dynamic weights, or a 'route weight' matching >=2 targets; distinct by sorted fixed-weight vector. Listener level (mainpkg): http, tcp, tcp+sni and https+tcp+sni listeners wired the way main.go wires them (lookupHostFn, lookupHostMatcher, configured picker), 2-4 equally weighted upstreams, "
-                 "3-12 full round-robin cycles of sequential connections counted per upstream: every upstream gets exactly its share (+-1 for the readiness probe)."),
+                 "3-12 full round-robin cycles of sequential connections counted per upstream: every upstream gets exactly its share (+-1 for the readiness probe). From-tags form: 2-5 instances with 1-3 urlprefix tags each, every tag with or without weight=, turned into commands by fabio; per route the effective weights equal the reference for that prefix's tags."),
         "technique": "rapid property test against reference weight arithmetic; full-cycle round-robin counting",
         "level_text": "Effective weights of generated target sets are compared with reference arithmetic and the round-robin/rnd pickers are driven through complete cycles and counted. Exploration only.",
         "level_note": "Ring length is read through a verif hook (VerifRingLen) and independently bounded to 10000±N (or N for equal weights); weights are finite and <= 10 (non-finite/huge weights belong to C02).",
